@@ -237,7 +237,10 @@ func (w *Workspace) UpdateFile(path, content string) {
 	if w.rootJournalPath == "" || w.index == nil {
 		return
 	}
-	if !w.isWorkspaceFileLocked(path) {
+	// a file that is no member yet may be matched by include patterns expanded
+	// before it existed, whether or not a directive also names it literally
+	adopted := w.index.FileIndex(path) == nil && w.adoptByPatternLocked(path)
+	if !adopted && !w.isWorkspaceFileLocked(path) {
 		return
 	}
 	if w.loader != nil && int64(len(content)) > w.loader.Limits().MaxFileSizeBytes {
